@@ -182,6 +182,16 @@ Proof.
   cbn zeta. rewrite E. exact (crash_atomic_all st0 old new univ Hp body k cr Hb).
 Qed.
 
+Lemma fault_contents_unchanged (L : Type) (sem : (N -> option content) -> L) v inuse fails i0 st0 old new univ live cr :
+  protocol_pre st0 old new univ ->
+  (forall a b, (forall n, a n = b n) -> sem a = sem b) ->
+  sem (view_new st0 old new) = sem (view_old st0) ->
+  sem (visible (recover_with_crashes univ cr (r_fs (replace_exec v inuse fails i0 old new st0 live)))) = sem (view_old st0).
+Proof.
+  intros Hp Hext Heq.
+  exact (contents_unchanged L sem st0 old new _ Hext Heq (proj1 (fault_restart_atomic v inuse fails i0 st0 old new univ live cr Hp))).
+Qed.
+
 (* ---- (2) the live list ---- *)
 Lemma live_atomic_repaired inuse fails i0 old new st live :
   let r := replace_exec Repaired inuse fails i0 old new st live in
